@@ -45,7 +45,7 @@ def own_sig(l):
 
 
 PROPS["C04"] = Prop(
-    "C04", ["GA.Props.C04", "GA.Props.Body", "GA.Props.BodyCollect", "GA.Props.BodyBoxed", "GA.Props.BodyZip"],
+    "C04", ["GA.Props.C04", "GA.Props.Body", "GA.Props.BodyCollect", "GA.Props.BodyBoxed", "GA.Props.BodyZip", "GA.Props.BodyClone"],
     [Engine("own", scen.own_c04, sig=own_sig, body_view=True),
      Engine("heap", scen.heap_c04, sig=lambda l: l.split()[0] + "/" + l.split()[2], body_view=True)],
     trusted=[KERNEL, TRANSLATOR, BODYTIE, HARNESS, OWN_TRUST],
@@ -57,7 +57,7 @@ PROPS["C04"] = Prop(
 PARAMS["C04"] = {"rule": "every operation (generate, default, map x4 forms, zip x10 forms, fold x4 forms, clone, iterator clone/fold/rfold from every (front, back), collect stack/boxed x try/panicking) x N in {0..8,16,17,33} x an injected panic at every call index (N <= 8; first/middle/last above) and the panic-free run. Distinct = distinct scenario lines; non-trivial = a panic was injected and propagated."}
 
 PROPS["C05"] = Prop(
-    "C05", ["GA.Props.C05", "GA.Props.Body"],
+    "C05", ["GA.Props.C05", "GA.Props.Body", "GA.Props.BodyCollectBad"],
     [Engine("own", scen.own_c05, sig=own_sig, body_view=True)],
     trusted=[KERNEL, TRANSLATOR, BODYTIE, HARNESS, OWN_TRUST],
     assumptions=["exactly one element's destructor panics per run (a second panic while unwinding aborts the process)",
@@ -77,7 +77,7 @@ PROPS["C07"] = Prop(
 PARAMS["C07"] = {"rule": "N in {0..8,16,17,33} x item counts 0..=N+3 x nine size hints (exact, loose, absent-upper, lying low/high, excluding N) x fused / non-fused / never-ending scripts x stack/boxed x try/panicking form x a panic at every poll; plus seeded random scripts. Non-trivial = the call returned Ok or Err (not a panic)."}
 
 PROPS["C08"] = Prop(
-    "C08", ["GA.Props.C08", "GA.Props.BodyCollect", "GA.Props.BodyBoxed", "GA.Props.BodyZip"],
+    "C08", ["GA.Props.C08", "GA.Props.BodyCollect", "GA.Props.BodyBoxed", "GA.Props.BodyZip", "GA.Props.BodyClone"],
     [Engine("own", scen.own_c08, sig=own_sig, body_view=True), Engine("heap", scen.heap_c08, sig=lambda l: l.split()[0] + "/" + l.split()[2], body_view=True)],
     trusted=[KERNEL, TRANSLATOR, HARNESS, OWN_TRUST],
     assumptions=["caller code does not panic in this property (C04 covers panics); closures are stateful recorders in the harness",
